@@ -77,6 +77,10 @@ MUTANTS = [
     ('C01', 'supp/nast.py', r"self\.make_flow\('while-else', \[skipped\]\)", "self.make_flow('while-else', [cur])", 'C01-R5'),
     ('C09', 'supp/module.py', r"        if not exists\(self\.filename\):[^\n]*\n            return True\n\n", "", 'C09-R5'),
     ('C09', 'supp/module.py', r"        if not exists\(self\.filename\):([^\n]*)\n            return True\n", r"        if not exists(self.filename):\1\n            return False\n", 'C09-R5'),
+    # parent-first module search (a3ea9c8)
+    ('C07', 'supp/project.py', r"        path = self\.get_search_path\(name\)\n", "        path = self.get_path()\n", 'C07-R2'),
+    ('C07', 'supp/project.py', r"path = self\.get_search_path\(root \+ '\.'\) if root else self\.get_path\(\)", "path = self.get_path()", 'C07-R1'),
+    ('C07', 'supp/project.py', r"                    return \[p\]\n", "                    return [p] + [x for x in path if x != p]\n", 'C07-R2'),
     # unnamed buffers and path climbing (relative imports)
     ('C08', 'supp/assistant.py', r"    source = Source\(source, filename, position\)\n    filename = source\.filename\n    ctx", "    source = Source(source, filename, position)\n    ctx", 'C08-R1'),
     ('C08', 'supp/project.py', r"                if parent == root:  # the root directory\n                    break\n", "", 'C08-R4'),
@@ -109,8 +113,8 @@ MUTANTS = [
     ('C07', 'supp/project.py', r"            if filename:\n                break\n", "", 'C07-R2'),
     ('C07', 'supp/project.py', r"raise ImportError\(name\)", "return None", 'C07-R2'),
     ('C07', 'supp/project.py', r"raise ImportError\('Not a package", "raise ValueError('Not a package", 'C07-R4'),
-    ('C07', 'supp/project.py', r"            for s in SUFFIXES:\n                fname = mpath \+ s\n                if os\.path\.exists\(fname\):\n                    filename = fname\n                    is_source = s in SOURCE_SUFFIXES\n                    break\n            else:\n                fname = os\.path\.join\(mpath, '__init__\.py'\)\n                if os\.path\.exists\(fname\):\n                    filename = fname\n                    is_source = True\n                    break",
-     "            fname = os.path.join(mpath, '__init__.py')\n            if os.path.exists(fname):\n                filename = fname\n                is_source = True\n                break\n            for s in SUFFIXES:\n                fname = mpath + s\n                if os.path.exists(fname):\n                    filename = fname\n                    is_source = s in SOURCE_SUFFIXES\n                    break", 'C07-R2'),
+    # (the mutant 'package __init__.py probed before the module suffixes' was only caught by the withdrawn probe-order rule; it differs
+    #  from HEAD only where a directory holds mod.py next to mod/, which the property's quantifier excludes - and there importlib prefers the package)
     # ---- C08
     ('C08', 'supp/assistant.py', r"    try:\n        root = project\.norm_package\(root, filename\)\n    except ImportError:\n        return \[\]\n", "    root = project.norm_package(root, filename)\n", 'C08-R1'),
     ('C08', 'supp/name.py', r"(self\.value\(\)\)\n            except )Exception:", r"\1TypeError:", 'C08-R1'),
